@@ -755,6 +755,11 @@ func explore(r *ev.Run, name string, bound int, body func(x *sx.Exec), detail in
 		r.Violation(f.Sig, map[string]interface{}{"scenario": name, "case": detail, "schedule": append([]int{}, schedule...), "trace": x2.Trace, "detail": f.Detail})
 	}
 	e.Run()
+	if okr, badr := e.ValidateReplays(); badr > 0 {
+		r.Violation("HARNESS: NONDETERMINISM: an explored schedule does not reproduce when replayed", nil)
+	} else {
+		r.Validated(okr)
+	}
 	r.Eval(e.Execs)
 	r.States(e.Execs)
 	r.Transitions(e.PointsTotal)
